@@ -157,7 +157,7 @@ theorem Inv.step {s : Sys F} (h : Inv s) (ev : Ev) : Inv (step s ev).1 := by
   rcases g2.2 with g | g | g
   · rcases g.2.2 with happ | hlt
     · rw [g.1, happ, List.append_nil]; exact hold
-    · exact hlt
+    · exact hlt.2
   · rw [g.1]; simp
   · rw [g.1]; simp
 
